@@ -160,6 +160,13 @@ func shapedPayload(r *ref.SplitMix64, t, n, shape int) []byte {
 	return p
 }
 
+func min2(a, b int) int {
+	if a < b {
+		return a
+	}
+	return b
+}
+
 func pickMask(r *ref.SplitMix64, n, width int) uint64 {
 	var m uint64
 	if n > width {
@@ -242,6 +249,26 @@ func monC07(c *child.Ctx, replay json.RawMessage) {
 			found++
 		}
 		c.Count("one_byte_payload_frames", int64(found))
+	}
+	// (1b) single-frame decoding is also handed raw slices that are NOT complete
+	// frames: a zero or tiny length field followed by the type bits and a few more
+	// bytes, and every prefix of a short valid frame; whatever it returns is displayed
+	if c.Batch == 0 || c.Thorough() {
+		for _, t := range c07Types {
+			for l := 0; l <= 3; l++ {
+				for extra := 0; extra <= 9; extra++ {
+					raw := []byte{0xD3, 0x00, byte(l), byte(t >> 4), byte(t << 4)}
+					raw = append(raw, r.Bytes(extra)...)
+					doFrame(raw, fmt.Sprintf("raw input: length field %d, type %d, %d more bytes", l, t, extra), true)
+					doFrame(raw[:3+min2(2, len(raw)-3)], "raw input: leader and type only", true)
+				}
+			}
+			f := ref.Frame(shapedPayload(r, t, r.Range(7, 30), 3))
+			for cut := 1; cut < len(f); cut++ {
+				doFrame(f[:cut], fmt.Sprintf("raw input: first %d bytes of a valid type %d frame", cut, t), true)
+			}
+		}
+		c.Count("raw_inputs_to_single_frame_decoding", 1)
 	}
 	// (2) well-formed messages truncated at every byte, and with mask bits flipped upward; illegal timestamps
 	nWell := c.Share(c.Pick(400, 12000))
